@@ -198,7 +198,8 @@ fn run_case(seed: u64, index: u64, rep: &mut Report, want: &[&str], md: &mut Mod
                 if let (Some(v), true) = (&s.anchor_val, ri == 0) {
                     let vals: Vec<String> = arr.iter(&txn).map(|o| print_out(&o, &txn, 0)).collect();
                     let at: Vec<usize> = vals.iter().enumerate().filter(|(_, x)| *x == v).map(|(i, _)| i).collect();
-                    if at.len() == 1 { rep.add("sticky_resolutions_checked_by_value", 1); let want = if s.after { at[0] as u32 } else { at[0] as u32 + 1 };
+                    if at.len() == 1 { rep.add("sticky_resolutions_checked_by_value", 1);
+                        if s.anchor.map_or(false, |(c, k)| units.iter().any(|u| u.0 == c && u.1 == k && !u.2)) { rep.add("sticky_resolutions_checked_by_value_through_a_copy", 1); } let want = if s.after { at[0] as u32 } else { at[0] as u32 + 1 };
                         if got != Some(want) { fails.push(json!({"property": "C14", "class": "sticky-does-not-stay-next-to-its-element", "sticky": si, "replica": ri, "step": step, "expected": want, "got": got, "element": v, "after": s.after, "created_at_step": s.created_at, "created_at_index": s.index})); } }
                 }
                 if got != want_off {
@@ -347,12 +348,56 @@ fn run_case(seed: u64, index: u64, rep: &mut Report, want: &[&str], md: &mut Mod
     drop(subs);
 }
 
+/// An element that is deleted, re-created by undo, and whose tombstone is split afterwards (a peer that had not seen the deletion
+/// inserted into the middle of the original run): the index has to follow the copy of ITS element, whichever piece of the
+/// tombstone it sat in. Values are unique, so the expected position is known without reading any `redone` pointer.
+fn redo_split_case(seed: u64, index: u64, rep: &mut Report) {
+    let mut r = Rng::for_case(seed, 214, index);
+    let (r0, r1) = (Replica::new(1, DocCfg { gc: false, ..DocCfg::default() }), Replica::new(2, DocCfg::default()));
+    let a0 = r0.doc.get_or_insert_array(ROOT_ARRAY); let a1 = r1.doc.get_or_insert_array(ROOT_ARRAY);
+    let mut mgr: yrs::undo::UndoManager<()> = yrs::undo::UndoManager::with_options(yrs::undo::Options { capture_timeout_millis: 0, ..yrs::undo::Options::default() });
+    mgr.expand_scope(&r0.doc, &a0);
+    let k = r.range(3, 6) as usize;
+    let vals: Vec<Any> = (0..k).map(|j| Any::Number((1000 + j) as f64)).collect();
+    r0.drain1();
+    { let mut txn = r0.doc.transact_mut(); a0.insert_range(&mut txn, 0, vals.clone()); }
+    let u = r0.drain1(); for x in &u { let _ = r1.apply_v1(x); }
+    // sticky indexes on every position of the run
+    let sts: Vec<(StickyIndex, usize, bool)> = { let txn = r0.doc.transact(); (0..k).flat_map(|j| [true, false].into_iter().filter_map(move |after| Some((j, after)))).filter_map(|(j, after)| { let idx = if after { j as u32 } else { j as u32 + 1 }; a0.sticky_index(&txn, idx, if after { Assoc::After } else { Assoc::Before }).map(|s| (s, j, after)) }).collect() };
+    // delete a sub-range, undo it
+    let ds = r.below(k as u64 - 1) as u32; let dl = r.range(2, (k as u32 - ds) as u64) as u32;
+    { let mut txn = r0.doc.transact_mut(); a0.remove_range(&mut txn, ds, dl); }
+    let undone = mgr.undo_blocking();
+    r0.drain1();
+    // the peer, unaware of the deletion, inserts into the middle of the original run (once or twice)
+    r1.drain1();
+    for t in 0..r.range(1, 2) { let p = r.range(1, k as u64 - 1) as u32; let mut txn = r1.doc.transact_mut(); a1.insert(&mut txn, p, Any::Number((5000 + t) as f64)); }
+    for x in r1.drain1() { let _ = r0.apply_v1(&x); }
+    rep.evaluations += 1; rep.count("redo_split_cases"); if undone { rep.nontrivial_case(&format!("rs:{}", index)); }
+    let txn = r0.doc.transact();
+    let now: Vec<String> = a0.iter(&txn).map(|o| print_out(&o, &txn, 0)).collect();
+    for (st, j, after) in sts {
+        let v = print_any(&vals[j]);
+        let at: Vec<usize> = now.iter().enumerate().filter(|(_, x)| **x == v).map(|(i, _)| i).collect();
+        if at.len() != 1 { continue; }
+        let want = if after { at[0] as u32 } else { at[0] as u32 + 1 };
+        let got = st.get_offset(&txn).map(|o| o.index);
+        rep.add("sticky_resolutions_after_a_split_of_a_re_created_run", 1);
+        if got != Some(want) { rep.fail(json!({"property": "C14", "class": "sticky-does-not-stay-next-to-its-element", "element": v, "expected": want, "got": got, "after": after, "array": now, "deleted": [ds, dl], "undone": undone, "case": {"stream": 214, "index": index, "seed": seed}})); return; }
+    }
+}
+
 pub fn run(prop: &str, tier: &str, seed: u64, workers: usize) -> Report {
     let n = if tier == "thorough" { 40000 } else { 8000 };
     let want: Vec<&str> = vec![prop];
     let mut total = parallel(workers, |w, nw| {
         let mut rep = Report::default();
         let mut md = Model::spawn();
+        if prop == "C14" { for ci in 0..n / 4 { if ci as usize % nw != w { continue; }
+            match catch(std::panic::AssertUnwindSafe(|| { let mut r2 = Report::default(); redo_split_case(seed, ci, &mut r2); r2 })) {
+                Ok(r2) => rep.merge(r2),
+                Err(e) => { rep.evaluations += 1; rep.fail(json!({"property": prop, "class": "panic", "error": e, "case": {"stream": 214, "index": ci, "seed": seed}})); }
+            } } }
         for ci in 0..n { if ci as usize % nw != w { continue; }
             match catch(std::panic::AssertUnwindSafe(|| { let mut r2 = Report::default(); run_case(seed, ci, &mut r2, &want, &mut md); r2 })) {
                 Ok(r2) => rep.merge(r2),
